@@ -18,7 +18,7 @@ SPEC = {
     "stages": [
         gen("vh_c45", "c45_descriptor", 1400, 40000, min_cases_quick=700,
             floors={"accepted": 0.6, "private-string": 0.08, "hardened": 0.1, "ranged": 0.1, "origin": 0.1, "multipath-expanded": 0.03, "miniscript": 0.05,
-                    "tr": 0.04, "wsh": 0.04, "sh": 0.03, "expansion-failed": 0.05, "single-char-strings": 0.6},
+                    "tr": 0.04, "tr-multipath-plain-pk:expanded": 0.015, "wsh": 0.04, "sh": 0.03, "expansion-failed": 0.05, "single-char-strings": 0.6},
             rule="grammar-generated descriptor; accepted => public/private print-parse fixpoints, scripts equal at indexes 0/1/2^31-1, BIP-380 checksum reference, "
                  "every single-character substitution rejected; non-trivial = accepted with >= 2 keys or origin/range/hardened/multipath"),
         gen("vh_c45", "c45_address", 20000, 400000, min_cases_quick=10000,
